@@ -56,6 +56,13 @@ var c11Exts = []c11Ext{
 
 func runC11(c *Ctx) {
 	c.Rep.Rule = "a case is (extension, base configuration, document free of the extension's trigger characters); Convert with the extension must equal Convert without; plus GFM versus its four members; distinct by hash; non-trivial = the document renders to at least 2 blocks"
+	// tie of the dispatch model the theorems are about: block and inline probe components whose
+	// trigger does not occur or that decline, next to the built-ins
+	np := 1500
+	if !c.Quick() {
+		np = 40000
+	}
+	prioScenarios(c, np, []byte{'a', 'b'})
 	bases := []Cfg{{Ext: "core"}, {Ext: "core", Unsafe: true, XHTML: true}, {Ext: "core", AutoID: true, Attr: true, HardWraps: true}}
 	var cfgs []Cfg
 	for _, b := range bases {
